@@ -466,24 +466,41 @@ def run_dag_histories(ctx, n):
 
 
 # ----------------------------------------------------------------------------- E3 bottleneck path and peeling
-def flow_graph(rng, conserving):
+def flow_graph(rng, conserving, pool=None):
     G = rand_dag_named(rng, rng.choice([3, 5, 6, 7]))
-    big = rng.random() < 0.25
+    big = rng.random() < 0.25 and pool is None
     if conserving:
         for e in G.edges(): G.edges[e]["flow"] = 0
         paths = gen.all_st_paths(G)
         for _ in range(rng.choice([0, 1, 2, 3, 4])):
-            p = rng.choice(paths); w = rng.choice([1, 2, 3, 4, 5, 6] + ([BIG, BIG + 1] if big else []))
+            p = rng.choice(paths); w = rng.choice(pool or ([1, 2, 3, 4, 5, 6] + ([BIG, BIG + 1] if big else [])))
             for e in gen.pairs(p): G.edges[e]["flow"] += w
     else:
-        for e in G.edges(): G.edges[e]["flow"] = rng.choice([0, 0, 1, 2, 3, 5, 7] + ([BIG] if big else []))
+        for e in G.edges(): G.edges[e]["flow"] = rng.choice([0, 0] + (pool or ([1, 2, 3, 5, 7] + ([BIG] if big else []))))
     if rng.random() < 0.15:
         G.add_node("iso")
     return G
 
 
-def structure(H, ids, flow_attr="flow"):
-    W = [[ids[u], ids[v], d[flow_attr]] for u, v, d in H.edges(data=True)]
+def scaled_flow_graph(rng, conserving):
+    """The scale family: an integer instance multiplied by a tiny unit - 2^-40 or 2^-30 (floats: dyadic scaling keeps every
+    sum, min and difference exact), Fraction(1, 10^12) (exact rationals) - and mixed magnitudes (routes of weight 1 or 2 next to
+    routes of weight 2^-40, 3 * 2^-40).  Returns (G, kind, scale) with flow * scale an integer (what the model sees)."""
+    from fractions import Fraction
+    kind = rng.choice(["2^-40", "2^-40", "2^-30", "1/10^12", "mixed", "mixed"])
+    if kind == "mixed":
+        G = flow_graph(rng, conserving, pool=[1, 3, 2 ** 40, 2 * 2 ** 40]); unit = 2.0 ** -40; scale = 2 ** 40
+    elif kind == "1/10^12":
+        G = flow_graph(rng, conserving, pool=[1, 2, 3, 4, 5, 6]); unit = Fraction(1, 10 ** 12); scale = 10 ** 12
+    else:
+        k = 40 if kind == "2^-40" else 30
+        G = flow_graph(rng, conserving, pool=[1, 2, 3, 4, 5, 6]); unit = 2.0 ** -k; scale = 2 ** k
+    for e in G.edges(): G.edges[e]["flow"] = G.edges[e]["flow"] * unit
+    return G, kind, scale
+
+
+def structure(H, ids, flow_attr="flow", scale=1):
+    W = [[ids[u], ids[v], int(d[flow_attr] * scale)] for u, v, d in H.edges(data=True)]
     P = [[ids[v], len(list(H.predecessors(v))), [ids[u] for u in H.predecessors(v)]] for v in H.nodes() if H.in_degree(v) > 0]
     S = [[ids[v], len(list(H.successors(v))), [ids[u] for u in H.successors(v)]] for v in H.nodes() if H.out_degree(v) > 0]
     topo = [ids[v] for v in nx.topological_sort(H)]
@@ -503,22 +520,26 @@ def run_bottleneck(ctx, n):
     reqs = []; meta = []
     for i in range(n):
         rng = ctx.rng("mbp", i)
-        G = flow_graph(rng, conserving=rng.random() < 0.4)
+        scale = 1; skind = "int"
+        if rng.random() < 0.25:
+            G, skind, scale = scaled_flow_graph(rng, conserving=rng.random() < 0.4)
+        else:
+            G = flow_graph(rng, conserving=rng.random() < 0.4)
         if rng.random() < 0.04:
             G = nx.DiGraph(); G.add_nodes_from(["a", "b"][:rng.choice([1, 2])])
         names = list(G.nodes()); ids = {v: j for j, v in enumerate(names)}
-        reqs.append("mbp " + common.toks(structure(G, ids)))
+        reqs.append("mbp " + common.toks(structure(G, ids, scale=scale)))
         try:
             got = graphutils.max_bottleneck_path(G, "flow")
         except Exception as e:
             got = exc_kind(e)
-        meta.append((i, G, names, ids, got))
+        meta.append((i, G, names, ids, got, scale, skind))
     outs = ctx.model.run(reqs)
-    for out, (i, G, names, ids, got) in zip(outs, meta):
-        replay = {"kind": "mbp", "nodes": names, "edges": [[u, v, d["flow"]] for u, v, d in G.edges(data=True)], "impl": str(got), "model": out}
-        ctx.case(["mbp", sorted([ids[u], ids[v], d["flow"]] for u, v, d in G.edges(data=True))], nontrivial=G.number_of_edges() >= 4,
+    for out, (i, G, names, ids, got, scale, skind) in zip(outs, meta):
+        replay = {"kind": "mbp", "nodes": names, "edges": [[u, v, d["flow"]] for u, v, d in G.edges(data=True)], "impl": str(got), "model": out, "flow_kind": skind}
+        ctx.case(["mbp", sorted([ids[u], ids[v], repr(d["flow"])] for u, v, d in G.edges(data=True))], nontrivial=G.number_of_edges() >= 4,
                  sample={"kind": "max_bottleneck_path", "edges": replay["edges"], "impl": str(got)})
-        ctx.dist("mbp:" + ("noedges" if G.number_of_edges() == 0 else "big" if any(d["flow"] >= BIG for _, _, d in G.edges(data=True)) else "small"))
+        ctx.dist("mbp:" + ("noedges" if G.number_of_edges() == 0 else skind if skind != "int" else "big" if any(d["flow"] >= BIG for _, _, d in G.edges(data=True)) else "small"))
         ctx.count("E3_max_bottleneck_path", "cases")
         # ---- property on the implementation's output
         if G.number_of_edges() == 0:
@@ -548,6 +569,8 @@ def run_bottleneck(ctx, n):
         elif body == "NOPATH": mod = (None, None)
         else:
             t = body.split(); mod = (int(t[1]), [names[int(x)] for x in t[2:]])
+        if isinstance(got, tuple) and got[0] is not None:
+            got = (got[0] * scale, got[1])                                  # exact: the unit is dyadic / rational
         if mod == got:
             ctx.count("E3_max_bottleneck_path", "agreements")
         else:
@@ -586,6 +609,11 @@ def peeling_clause(G, before, got, conserving, exact):
     for e, x in before.items():
         if expl[e] > x + tol: return f"edge {e} with flow {x} is explained {expl[e]} times"
         if conserving and abs(expl[e] - x) > tol: return f"edge {e}: flow {x}, summed path weights {expl[e]}"
+    if exact and not conserving:
+        # completeness (C17_max_bottleneck_complete): the loop may stop only when no source-to-sink path with positive residual flow is left
+        for p in gen.all_st_paths(G):
+            if len(p) >= 2 and all(before[e] - expl[e] > 0 for e in gen.pairs(p)):
+                return f"peeling stopped although the path {p} still has positive residual flow on every edge"
     return None
 
 
@@ -600,9 +628,12 @@ def run_peeling(ctx, n):
         scale = 1                                       # model sees flow * scale (integers)
         if r < 0.22:
             kind = "float"; G, _ = gen.float_conserving_dag(rng); conserving = True; scale = None
-        elif r < 0.34:
+        elif r < 0.32:
             kind = "dyadic"; conserving = rng.random() < 0.8; G = flow_graph(rng, conserving); scale = 8
             for e in G.edges(): G.edges[e]["flow"] = G.edges[e]["flow"] / 8
+        elif r < 0.52:
+            conserving = rng.random() < 0.85
+            G, kind, scale = scaled_flow_graph(rng, conserving); kind = "scaled " + kind
         else:
             conserving = rng.random() < 0.72
             kind = "int" if conserving else "int-nonconserving"
@@ -636,7 +667,7 @@ def run_peeling(ctx, n):
             reqs.append("explains 0 0"); reqs.append("explains 0 0")          # inexact floats: no model
         else:
             for e in H0.edges(): H0.edges[e]["flow"] = int(H0.edges[e]["flow"] * scale)
-            reqs.append("peel " + common.toks(structure(H0, ids, "flow")))
+            reqs.append("peel " + common.toks(structure(H0, ids, "flow")))          # H0's flows are already integers (flow * scale)
             if not isinstance(got, str) and all((w * scale) == int(w * scale) for w in got[1]):
                 D = [[int(w * scale), len(p), [ids.get(x, 0) for x in p]] for p, w in zip(*got)]
                 W = [[ids[u], ids[v], int(x * scale)] for (u, v), x in before.items()]
@@ -761,9 +792,11 @@ def run_antichain(ctx, n):
     for i in range(n):
         rng = ctx.rng("antichain", i)
         G = gen.mimic_names(rng, gen.rand_dag(rng, nmax=rng.choice([2, 3, 5, 6, 7])), p=0.6)
+        for j in range(rng.choice([0, 0, 0, 1, 2])):
+            G.add_node(f"iso{j}")                                          # only global source / sink edges
         nodes = list(G.nodes())
-        starts = [rng.choice(nodes)] if rng.random() < 0.15 else None
-        ends = [rng.choice(nodes)] if rng.random() < 0.15 else None
+        starts = rng.sample(nodes, min(len(nodes), rng.choice([1, 2]))) if rng.random() < 0.3 else None
+        ends = rng.sample(nodes, min(len(nodes), rng.choice([1, 2]))) if rng.random() < 0.3 else None
         st = fp.stDAG(G, additional_starts=starts, additional_ends=ends)
         names = list(st.nodes()); ids = {v: j for j, v in enumerate(names)}; edges = list(st.edges())
         mode = rng.choice(["default", "weights", "weights", "zero", "big", "width", "width_ignore"])
@@ -858,6 +891,115 @@ def run_antichain(ctx, n):
                        replay, concrete=False)
 
 
+def _whist_apply(st, op):
+    """One operation of a width / antichain history on the stDAG object st.  Returns (reported optimum, antichain or None)."""
+    if op["op"] == "width":
+        ign = op["ign"]
+        return st.get_width(None if ign is None else [tuple(e) for e in ign]), None
+    wf = None if op["wf"] is None else {(u, v): x for u, v, x in op["wf"]}
+    if op["ga"]:
+        c, a = st.compute_max_edge_antichain(get_antichain=True, weight_function=wf)
+        return c, a
+    return st.compute_max_edge_antichain(get_antichain=False, weight_function=wf), None
+
+
+def _whist_weight(st, edges, op):
+    """The documented demand function of the operation (what a FRESH object must optimise)."""
+    if op["op"] == "width":
+        ign = set(map(tuple, op["ign"] or []))
+        return {e: int(e not in ign) for e in edges}
+    if op["wf"] is None:
+        return {e: int(e[0] != st.source and e[1] != st.sink) for e in edges}
+    wf = {(u, v): x for u, v, x in op["wf"]}
+    return {e: wf.get(e, 0) for e in edges}
+
+
+def run_width_histories(ctx, n):
+    """E4 on ONE stDAG object: random interleavings of get_width(edges_to_ignore) and compute_max_edge_antichain(get_antichain,
+    weight_function); every answer must be the optimum a fresh object has for that operation's weights (exhaustive maximum,
+    verified antichain, cover certificate).  Graphs have isolated nodes and additional starts / ends on inner nodes, so that the
+    global source / sink edges matter (get_width counts them, the default antichain weights do not)."""
+    import flowpaths as fp
+    reqs = []; meta = []
+    for i in range(n):
+        rng = ctx.rng("whist", i)
+        G = gen.mimic_names(rng, gen.rand_dag(rng, nmax=rng.choice([2, 3, 4, 5, 6])), p=0.35)
+        for j in range(rng.choice([0, 0, 1, 1, 2])):
+            G.add_node(f"iso{j}")
+        nodes = list(G.nodes())
+        starts = rng.sample(nodes, min(len(nodes), rng.choice([1, 1, 2]))) if rng.random() < 0.5 else None
+        ends = rng.sample(nodes, min(len(nodes), rng.choice([1, 1, 2]))) if rng.random() < 0.5 else None
+        st = fp.stDAG(G, additional_starts=starts, additional_ends=ends)
+        names = list(st.nodes()); ids = {v: j for j, v in enumerate(names)}; edges = list(st.edges())
+        fadj, _ = adjacency(edges)
+        reach_from = {v: bfs(fadj, v) for v in names}
+        ops = []
+        for _ in range(rng.randint(3, 8)):
+            r = rng.random()
+            if r < 0.4:
+                q = rng.random()
+                ign = None if q < 0.35 else [] if q < 0.55 else [list(e) for e in edges if rng.random() < rng.choice([0.2, 0.5, 1.0])]
+                ops.append({"op": "width", "ign": ign})
+            else:
+                q = rng.random()
+                wf = None if q < 0.5 else [] if q < 0.58 else [[u, v, rng.choice([0, 1, 1, 2, 3])] for (u, v) in edges if rng.random() < 0.8]
+                ops.append({"op": "anti", "ga": rng.random() < 0.5, "wf": wf})
+        answers = []; err = None; cache = {}
+        first = len(reqs)
+        for op in ops:
+            try:
+                cost, anti = _whist_apply(st, op)
+            except Exception as e:
+                cost, anti = "raised " + exc_kind(e), None
+            weight = _whist_weight(st, edges, op)
+            key = tuple(sorted(weight.items()))
+            if key not in cache:
+                opt, wit = brute_max_antichain(edges, weight, reach_from)
+                cache[key] = (opt, wit, min_cover(st, weight))
+            opt, wit, P = cache[key]
+            A = [e for e in (anti if anti is not None else wit) if e in weight]
+            V = [ids[v] for v in names]; E = [[ids[u], ids[v]] for u, v in edges]
+            W = [[ids[u], ids[v], x] for (u, v), x in weight.items()]
+            Ptok = [[b, len(p), [ids[x] for x in p]] for p, b in (P or [])]
+            reqs.append("cert " + common.toks(len(V), V, len(E), E, ids[st.source], ids[st.sink], len(W), W, len(A), [[ids[u], ids[v]] for u, v in A], len(Ptok), Ptok))
+            answers.append((cost, anti, opt))
+        meta.append((i, G, st, starts, ends, ops, answers, first))
+    outs = ctx.model.run(reqs)
+    for (i, G, st, starts, ends, ops, answers, first) in meta:
+        ren = lambda x: "<S>" if x == st.source else ("<T>" if x == st.sink else x)
+        rops = []
+        for op in ops:
+            o = dict(op)
+            if o.get("ign"): o["ign"] = [[ren(u), ren(v)] for u, v in o["ign"]]
+            if o.get("wf"): o["wf"] = [[ren(u), ren(v), x] for u, v, x in o["wf"]]
+            rops.append(o)
+        replay = {"kind": "whist", "nodes": list(G.nodes()), "edges": [list(e) for e in G.edges()], "starts": starts, "ends": ends, "ops": rops,
+                  "answers": [str(a[0]) for a in answers], "fresh_object_optimum": [a[2] for a in answers]}
+        ctx.case(["whist", sorted(map(list, G.edges())), starts, ends, rops], nontrivial=len(ops) >= 3 and any(o["op"] == "width" for o in ops),
+                 sample={"kind": "stDAG width/antichain history", "edges": replay["edges"], "starts": starts, "ends": ends, "ops": rops[:4], "answers": replay["answers"][:4]})
+        ctx.dist(f"whist:ops<={4 * (len(ops) // 4 + 1)}")
+        ctx.count("E4_width_histories", "sequences")
+        bad = None
+        for k, ((cost, anti, opt), out) in enumerate(zip(answers, outs[first:first + len(ops)])):
+            t = out.split()
+            if t[0] != "OK":
+                bad = (False, f"model error in certificate check: {out[:60]}"); break
+            cert_ok, anti_ok, aw, cs = t[1] == "1", t[2] == "1", int(t[4]), int(t[5])
+            what = None
+            if cost != opt:
+                what = f"answered {cost}, a fresh object's optimum (exhaustive maximum) is {opt}"
+            elif anti is not None and (not anti_ok or aw != cost or any(e not in set(st.edges()) for e in anti)):
+                what = f"returned antichain {anti} is rejected by antichain_ok or has weight {aw} != reported {cost}"
+            if what:
+                bad = (True, f"operation #{k} {rops[k]} of a history on one stDAG object {what}"); break
+            if cert_ok and cs == cost: ctx.count("E4_width_histories", "answers_proved_by_certificate")
+            else: ctx.count("E4_width_histories", "answers_exhaustive_only")
+        if bad:
+            ctx.report(("width / antichain history: " if bad[0] else "") + bad[1], replay, concrete=bad[0])
+        else:
+            ctx.count("E4_width_histories", "agreements")
+
+
 def run_cyclic_width(ctx, n):
     """stDiGraph.get_width(): a verified antichain of the ORIGINAL graph of that size exists (lower bound proved per
     instance, antichain_ok is sound for walks in arbitrary digraphs); equality with the exhaustive maximum is observed."""
@@ -898,6 +1040,9 @@ def run(ctx):
                 "z<id-like digits><k>, source_<n>, sink_<n>, <v>.0/<v>.1, <k>, <k>_expanded, numeric-looking strings); digraphs incl. ones with a strongly "
                 "connected part that no source reaches / that reaches no sink (gen.rand_digraph_free); every node of the s-t graph is queried, the two "
                 "synthetic ones included. "
+                "DAGs of the antichain / width streams also carry isolated nodes and additional starts / ends on inner nodes; width/antichain "
+                "histories = 3-8 interleaved get_width(ignore) / compute_max_edge_antichain(get_antichain, weight_function) calls on one stDAG object; "
+                "flow scale families: x2^-40, x2^-30, xFraction(1,10^12), mixed magnitudes 1 and 2^-40. "
                 "cases: random DAGs (gen.rand_dag, <= 7 nodes) and cyclic digraphs (gen.rand_cyclic, <= 9 nodes incl. source/sink) with integer "
                 "weights from {0, 1..9, 2^40 +- k}, some edges without the attribute, optional additional starts/ends; histories of 4-14 operations "
                 "over 1-3 graph objects; flows = superpositions of 0-4 source-to-sink paths (conserving; integer, dyadic k/8, or inexact floats that conserve exactly in float arithmetic: fan-out / fan-in trees with trunk = float sum of the branches, filtered superpositions) or arbitrary non-negative weights; antichain "
@@ -911,6 +1056,7 @@ def run(ctx):
     run_bottleneck(ctx, ctx.budget(500, 8000))
     run_peeling(ctx, ctx.budget(500, 8000))
     run_antichain(ctx, ctx.budget(450, 6000))
+    run_width_histories(ctx, ctx.budget(250, 4000))
     run_cyclic_width(ctx, ctx.budget(120, 2000))
     gencheck01.run_generated_c17(ctx)      # generated-model tie of stDiGraph.is_scc_edge (coq/gen_proofs)
     import e3mincut; e3mincut.run_mincut_e3(ctx, ctx.budget(300, 6000))   # residual search + antichain extraction on the tapped minimum flow
@@ -922,7 +1068,9 @@ def replay(ctx, body):
     from flowpaths.utils import graphutils
     kind = body.get("kind")
     G = nx.DiGraph(); G.add_nodes_from(body.get("nodes", []))
+    from fractions import Fraction
     for e in body.get("edges", []):
+        if len(e) == 3 and isinstance(e[2], str): e[2] = Fraction(e[2])           # exact rationals are stored as "p/q"
         if len(e) == 3 and e[2] is not None: G.add_edge(e[0], e[1], flow=e[2])
         else: G.add_edge(e[0], e[1])
     if kind == "sdg":
@@ -967,6 +1115,19 @@ def replay(ctx, body):
                 s = held.get((bool(q[1]), names[q[3]]))
                 if s is not None: (s.add if q[2] else s.discard)(names[q[4]])
         return bad
+    if kind == "whist":
+        st = fp.stDAG(G, additional_starts=body.get("starts") or None, additional_ends=body.get("ends") or None)
+        ren = lambda x: st.source if x == "<S>" else (st.sink if x == "<T>" else x)
+        still = False
+        for op, want in zip(body["ops"], body["fresh_object_optimum"]):
+            o = dict(op)
+            if o.get("ign"): o["ign"] = [[ren(u), ren(v)] for u, v in o["ign"]]
+            if o.get("wf"): o["wf"] = [[ren(u), ren(v), x] for u, v, x in o["wf"]]
+            try: cost = _whist_apply(st, o)[0]
+            except Exception as e: cost = "raised " + exc_kind(e)
+            print(op, "->", cost, "fresh-object optimum", want)
+            still |= cost != want
+        return still
     if kind == "antichain":
         st = fp.stDAG(G, additional_starts=body.get("starts") or None, additional_ends=body.get("ends") or None)
         ren = lambda x: st.source if x == "S" else (st.sink if x == "T" else x)
